@@ -10,7 +10,11 @@ for d in seeded/*/; do
   wt=/tmp/rt/$id; git -C /repo worktree remove --force $wt >/dev/null 2>&1; rm -rf $wt
   git -C /repo worktree add -q --detach $wt HEAD || continue
   mkdir -p $wt/REDTEAM/$k; cp -r $d/* $wt/REDTEAM/$k/; cp $d/meta.redteam.json $wt/REDTEAM/$k/meta.json
-  demo=$(python3 -c "import json,sys; print(json.load(open('$d/meta.redteam.json')).get('demo_cmd',''))")
+  demo=$(python3 -c "import json,sys; import re
+c=json.load(open('$d/meta.redteam.json')).get('demo_cmd','')
+c=re.split(r'\s{2,}[(#]', c)[0]            # drop trailing prose the agent appended after the command
+c=re.sub(r'git apply REDTEAM/\d+/patch\.diff\s*&&\s*', '', c)   # the confirm script applies the patch itself
+print(c.strip())")
   {
    echo "## $(date -u +%FT%TZ) repo HEAD $(git -C /repo rev-parse --short HEAD) seed $name"
    echo "## demo_cmd: $demo"
